@@ -16,3 +16,12 @@ NA['C17'] = ("not applicable to contract-based verification: quantifies over all
              "which is not a pre/postcondition of any function within reach (the spec would be the Go type system applied to template output); see DESIGN.md §3 C17")
 NA['C18'] = ("not applicable: byte-identical output across processes / map seeds / start directories is a relational (two-execution) hyperproperty of the whole generator; "
              "no per-function contract states it; see DESIGN.md §3 C18")
+
+CLAIMS['C02'] = dict(
+  technique="contract-based deductive verification (gocv: WP/symbolic-execution VCs over go/ast of the real functions, SMT-discharged)",
+  text="Function contracts on the real scalar coercion code in graphql/: for every dynamic type an integer/ID unmarshaler accepts "
+       "(int, int64, int32, uint32, uint64, string, json.Number, nil) success implies the mathematical value of the result equals the mathematical "
+       "value of the input (no number silently changed), out-of-range and wrong-sign inputs and unknown dynamic types yield an error, no panic; "
+       "UnmarshalString/ID/Boolean total on the JSON types; CoerceList: nil->empty, list passed through unchanged, scalar v -> [v]. "
+       "All inputs, unbounded. The generated argument/input-object code (args.gotpl, input.gotpl) is covered by the probe-proved family contracts listed in the evidence when present.",
+  note=COMMON_NOTE + "strconv parse/format functions trusted to compute the decimal value numval(s). Floats, custom scalars, Omittable and gqlparser's variable coercion are not decided.")
